@@ -27,4 +27,13 @@ CHECKS = {
     "C01": dict(engine=_A, technique="runtime monitoring: real DPOP computations under a deterministic random scheduler, brute-force optimum oracle",
                 text="Held on the executions observed: every generated DCOP x schedule ran the real DpopAlgo computations to quiescence; monitors checked finished() exactly once per computation, domain membership, and total cost == brute-force optimum. Exploration is the right level: the property quantifies over inputs and schedules, which are sampled (seeded), not enumerated.",
                 note="Trusted: harness brute force over its own cost tables; per-channel FIFO is the only ordering assumed; instances <= 7 variables, domains <= 4."),
+    "C02": dict(engine=_A, technique="runtime monitoring: real SyncBB computations under a deterministic random scheduler, brute-force optimum oracle",
+                text="Held on the executions observed: generated binary DCOPs (incl. single variable, unconstrained variables, duplicate scopes) x start orders/FIFO schedules; monitors: first computation finishes, terminate reaches everyone, nobody finishes twice, final values are domain values with cost == brute-force optimum.",
+                note="min-mode instances use non-negative costs (branch and bound on partial costs); max-mode arbitrary; <= 6 variables, domains <= 4."),
+    "C03": dict(engine=_A, technique="runtime monitoring: cycle-cut monitor over real MGM/MGM2 runs under a deterministic random scheduler, independent cost oracle",
+                text="Held (except the listed known finding) on the executions observed: per connected component, the logical cut A_k (values held when entering cycle k) never has a worse cost than A_k-1 (constraints + variable costs), and constraint-sharing variables that change in the same cycle are go/go partners (from the message trace).",
+                note="Logical cycle cuts stand for the aligned instants of the statement (argument in pv/lsrun.py); instances <= 6 variables; randomness seeded."),
+    "C04": dict(engine=_A, technique="runtime monitoring: cycle-cut monitor over real MGM/MGM2 runs, 1-opt oracle by enumeration",
+                text="Held (except the listed known finding) on the executions observed: whenever a complete cycle leaves a component's assignment unchanged, enumeration over every variable and value finds no strictly improving unilateral change.",
+                note="Same runs and assumptions as C03; thousands of no-move cycles are observed per run (counter nomove_cycles_multi)."),
 }
